@@ -187,6 +187,10 @@ def execute(world, insts, op, scopes=("recv", "args"), extra_roots=None, saturat
         if "all" in scopes:
             for i, inst in enumerate(insts):
                 r[f"i{i}"] = inst
+        if "peers" in scopes:
+            for i, inst in enumerate(insts):
+                if inst is not recv:
+                    r[f"i{i}"] = inst
         if "classes" in scopes:
             r.update(class_roots(world))
         if extra_roots:
